@@ -26,6 +26,7 @@ import (
 	"runtime/debug"
 	"sort"
 	"strings"
+	"sync"
 	"testing"
 	"time"
 
@@ -43,8 +44,8 @@ import (
 // ---------------------------------------------------------------------------- case
 
 type LOp struct {
-	Op   string `json:"op"`   // add | edit | remove
-	Name string `json:"name"` // a b c
+	Op   string `json:"op"`             // add | edit | remove
+	Name string `json:"name"`           // a b c
 	Kind string `json:"kind,omitempty"` // add: http smb ext svc
 	Port string `json:"port,omitempty"` // http add: fresh | busy (held by the harness) | same (port of a running HTTP listener)
 
@@ -260,6 +261,7 @@ func (w *worldA) post(port string, p probe) (int, error) {
 	}
 	io.Copy(io.Discard, resp.Body)
 	resp.Body.Close()
+	svcx.Quiesce() // the handler goroutine may outlive the response by a few instructions
 	return resp.StatusCode, nil
 }
 
@@ -406,15 +408,32 @@ func httpInfo(name, port string, c httpCfg) map[string]string {
 	}
 }
 
+// stalled: the teamserver did not complete something within svcx.Bound (30 s, four orders
+// of magnitude above the normal cost).  C16 says the teamserver "keeps working" / "keeps
+// running", so this is reported - under a signature of its own.
 func inconclusive(format string, a ...any) *core.Violation {
-	// never matched by a known finding; the text makes clear that it is the harness that gave up
-	return core.V("harness|inconclusive", "harness could not observe the teamserver: "+format, a...)
+	return core.V("stall|teamserver-did-not-settle", "the teamserver did not settle within %v: "+format, append([]any{svcx.Bound}, a...)...)
+}
+
+var (
+	skipMu  sync.Mutex
+	skipped = map[string]int{}
+)
+
+// skip abandons a case because the harness's own plumbing failed (no free port, cannot
+// create the fixture): counted in the evidence, never a violation.
+func skip(what string, err error) *core.Violation {
+	skipMu.Lock()
+	skipped[what]++
+	core.SetExtra("cases_abandoned_by_harness", fmt.Sprintf("%v (last: %v)", skipped, err))
+	skipMu.Unlock()
+	return nil
 }
 
 func checkA(c CaseA) *core.Violation {
 	fx, err := svcx.New(true)
 	if err != nil {
-		return inconclusive("fixture: %v", err)
+		return skip("fixture", err)
 	}
 	defer fx.Close()
 	w := &worldA{fx: fx}
@@ -423,17 +442,17 @@ func checkA(c CaseA) *core.Violation {
 	// one step at a time: the operator side's own External listener first, then the service
 	// script that defines the listener kind svcKind
 	if err := ts.ListenerStart(handlers.LISTENER_EXTERNAL, handlers.ExternalConfig{Name: svcx.OpExt, Endpoint: "opext"}); err != nil {
-		return inconclusive("op-ext: %v", err)
+		return skip("op-ext", err)
 	}
 	if w.svc, err = fx.Connect(0); err != nil {
-		return inconclusive("service connect: %v", err)
+		return skip("service-connect", err)
 	}
 	w.svc.RegisterListener(svcKind, "SvcAgent")
 	if err := w.svc.Barrier(); err != nil {
 		return inconclusive("barrier: %v", err)
 	}
 	if w.busy, err = svcx.ListenLoopback(); err != nil {
-		return inconclusive("busy port: %v", err)
+		return skip("busy-port", err)
 	}
 	defer w.busy.Close()
 	_, w.busyP, _ = net.SplitHostPort(w.busy.Addr().String())
@@ -467,7 +486,7 @@ func checkA(c CaseA) *core.Violation {
 					}
 				default:
 					if port, err = svcx.FreePort(); err != nil {
-						return inconclusive("free port: %v", err)
+						return skip("free-port", err)
 					}
 				}
 				info = httpInfo(op.Name, port, cfg)
@@ -722,7 +741,7 @@ const ruleA = "histories of operator Listener Add/Edit/Remove packages (client-s
 var assumptionsA = []string{
 	"operator packages are dispatched without a connected operator socket: replies to 'the user' and broadcasts are no-ops; the advertised set is read from ts.EventsList, which is exactly what SendAllPackagesToNewClient sends",
 	"the set advertised to operators is the listener table the client builds from the replay (Add from an operator ignored, Add of a listed name ignored, Remove deletes) - a stale Add followed by its Remove is not counted as advertised",
-	"state is read only when every goroutine running teamserver code is parked (goroutine dump), never on a timer",
+	"state is read only when every goroutine running teamserver code is blocked on network input or a channel (goroutine dump), never on a timer; if that does not happen within 30 s the case is reported as stall|teamserver-did-not-settle; failures of the harness's own plumbing (no free port, fixture) abandon the case and are counted in extra.cases_abandoned_by_harness",
 	"a spurious bind failure on a 'fresh' port (taken by another process in between) is observed through h.Active and only costs coverage",
 	"HTTPS listeners (certificate generation) and profile/database-restored listeners are not generated",
 }
